@@ -11,43 +11,57 @@ from vlib.dtcodec import f2bits
 
 META = {
     'level_text': 'Theorems for every float carrier with the laws of Spec.C02.WireLaws, every well-formed datatype tree of any depth '
-                  'and every valid value of it (in the declared value set of Spec.C01, every scaled leaf reproduced by the grid): '
-                  'export_kind (export_value yields strict JSON of the prescribed kind at every position), wire_roundtrip_node '
-                  '(import_value of the exported value is Python-equal to the value), wire_roundtrip_text (the same through any '
-                  'dumps/loads pair with loads(dumps j) = j), wire_roundtrip_client (the same on the datatype rebuilt from the '
-                  'description: clientOf, whose import_value is proved identical), text_roundtrip (from_string accepts to_string, the '
-                  'result has the identical text form and equals the value at every non-float leaf; one-member tuples print as (x,)), '
-                  'client_string_write (for types without float leaf; the full statement is kept as client_string_write_statement). '
-                  'The models of export_value / format_value / to_string / from_string / setParameterFromString are tied to '
-                  'frappy/datatypes.py and frappy/client/__init__.py by a correspondence run on the real classes (json.dumps with the '
-                  'settings of encode_msg_frame, json.loads, get_datatype, CacheItem, a SecopClient whose request() records the line), and '
-                  'the Lean monitors (kindOKB, strictB, pyEq, sameButFloatsB, textEq) judge every output of the implementation.',
+                  '(structs included) and every valid value of it (in the declared value set of Spec.C01, every scaled leaf reproduced '
+                  'by the grid): export_kind (export_value yields strict JSON of the prescribed kind at every position), '
+                  'wire_roundtrip_node (import_value of the exported value is Python-equal to the value), wire_roundtrip_exact (a '
+                  'canonical value comes back as the very same value), wire_roundtrip_text (the same through any dumps/loads pair '
+                  'with loads(dumps j) = j), wire_roundtrip_client (the same on the datatype rebuilt from the description: clientOf, '
+                  'whose import_value and export_value are proved identical), text_roundtrip / text_roundtrip_client (from_string '
+                  'accepts to_string, the result has the identical text form and equals the value at every non-float leaf; all '
+                  'trees: one-member tuples print as (x,), struct members in the order of the value, enum names with outer blanks), '
+                  'client_string_write (for every valid canonical value in the client\'s cache: str(CacheItem) is accepted by '
+                  'from_string, and what setParameterFromString sends is strict JSON of the kind the node\'s type prescribes which '
+                  'the node imports to a value equal to the one the text was read as — also when a re-read float left the limits), '
+                  'client_cache_string_write (the whole path: node export -> updateValue -> cache entry holding exactly v -> '
+                  'str -> setParameterFromString -> node import; under the grid law at the scaled limits, LimitsOnGrid). '
+                  'The models of export_value / format_value / to_string / from_string / CacheItem / updateValue / setParameter / '
+                  'setParameterFromString are tied to frappy/datatypes.py and frappy/client/__init__.py by a correspondence run on '
+                  'the real classes (json.dumps with the settings of encode_msg_frame, json.loads, a SecopClient whose tables are '
+                  'built by the real _init_descriptive_data (get_datatype) and whose request() records the line), and the Lean '
+                  'monitors (kindOKB, strictB, pyEq, sameButFloatsB, textEq) judge every output of the implementation.',
     'level_note': 'Trusted: Lean kernel + axioms propext/Classical.choice/Quot.sound; the laws of WireLaws for binary64 (proved for the '
                   'exact carrier Rat); one law per library leaf (TextLib.Lawful, B64Law, JsonText.loads_dumps), each tested on every '
-                  'leaf drawn; the printing/parsing of brackets and commas (ast.parse) is not modelled — texts are compared as syntax trees.',
+                  'leaf drawn and all satisfied by a concrete library over Rat (Lemmas/TextLibRat.lean); the float format laws speak '
+                  'of the library and float arithmetic only (FloatRange.__call__ / ScaledInteger.__call__ are proved from the model); '
+                  'the printing/parsing of brackets and commas (ast.parse) is not modelled — texts are compared as syntax trees.',
     'trusted': [
-        'binary64 satisfies Spec.C02.WireLaws (x+0.0 compares like x, x*y = y*x, float(i) exists for |i| <= 2^64, order laws); proved '
-        'for Rat, re-tested on the doubles drawn',
+        'binary64 satisfies Spec.C02.WireLaws (x+0.0 compares like x, x*y = y*x, x <= x, -max <= max, float(i) exists for '
+        '|i| <= 2^64, order laws); proved for Rat, re-tested on the doubles drawn',
         'grid law at every scaled leaf (part of Valid: round(x/scale)*scale == x); leaves where it fails (|k|*ulp >= 1/2) are probed by '
-        'the generator and counted as outside the quantifier',
-        "library leaves, one law each, tested on every leaf drawn: fmtstr % float(literal_eval(fmtstr % x)) == fmtstr % x through "
-        "FloatRange.__call__ / ScaledInteger.__call__ (TextLib.Lawful.fmtDouble/fmtScaled); ast.literal_eval(repr(s)) == s for str, "
-        'bytes, int, bool; b64decode(b64encode(b), validate=True) == b (B64Law); json.loads(json.dumps(j)) == j for strict j '
+        'the generator and counted as outside the quantifier; the same law at the snapped limits (LimitsOnGrid, decided per case)',
+        "library leaves, one law each, tested on every leaf drawn: fmtstr % clamp(literal_eval(fmtstr % x) + 0.0) == fmtstr % x for a "
+        "finite x that is not -0.0 (TextLib.Lawful.fmtDouble), for a grid value x of a scaled leaf fmtstr % y == fmtstr % x where y = "
+        "round(literal_eval(fmtstr % x) / scale) * scale, and y is again reproduced by the grid (fmtScaled); the instances where "
+        "this fails ('%.1f' % -0.04 == '-0.0' reads back as 0.0 which prints '0.0'; scaled leaves with a grid finer than the double "
+        "spacing) are decided per case in Lean (fmtLawB) and counted, not judged; ast.literal_eval(repr(s)) == s for str, bytes, "
+        'int, bool; b64decode(b64encode(b), validate=True) == b (B64Law); json.loads(json.dumps(j)) == j for strict j '
         '(JsonText.loads_dumps)',
         'ast.parse as the reader of bracket structure: the observation compares syntax trees, (x) vs (x,) is decided by ast',
-        'FrappyDrive/C02.lean: the tagged-token TextLib instance and the fmt read-back table sent by the harness',
+        'FrappyDrive/C02.lean: the tagged-token TextLib instance and the fmt read-back table sent by the harness (a float text is '
+        'identified with the float it reads back as)',
     ],
     'modelled_not_verified': [
         "CPython '%' formatting, repr(), ast.literal_eval, str.strip, base64, json.dumps/json.loads, float arithmetic",
         'frappy.lib.enum.Enum (dict keyed by names and values)',
         'frappy.properties.HasProperties.exportProperties / get_datatype beyond what values can see (clientOf; the full '
         'description round trip is C03)',
-        'SecopClient queueing/threads: request() is replaced by a recorder that calls the real encode_msg_frame',
+        'SecopClient queueing/threads: request() is replaced by a recorder that calls the real encode_msg_frame; the error '
+        'branch of CacheItem.__str__ (readerror) is modelled but not exercised',
     ],
     'assumptions': ['generalConfig.lazy_number_validation is False (default)',
                     'values are canonical (what validation returns): no -0.0 leaf for the text clauses',
-                    'fmtstr follows the SECoP syntax %.<n>(e|f|g) or is frappy\'s default %g',
-                    'enum member names have no leading/trailing white space (EnumType.from_string strips the text)',
+                    'fmtstr follows the SECoP syntax %.<n>(e|f|g) or is frappy\'s default %g, and the format law holds at the float '
+                    'leaves of the value (fails for negative values that print as -0.0 under %.<n>f)',
                     'node-side from_string (which converts with __call__) is offered structs with all members; the client side '
                     '(client = True) takes structs without their optional members'],
 }
@@ -104,10 +118,21 @@ def rebuild(dt):
     return get_datatype(json.loads(json.dumps(dt.export_datatype())), 'p')
 
 
-class Recorder:
-    """a SecopClient whose connection is a recorder: request() encodes the frame with the real encode_msg_frame"""
+def describe_node(dt):
+    """what a `describe` request would answer for a node with one module `m` holding one custom parameter `_par` of this
+    datatype (the structure `SecNode.get_descriptive_data` produces), after its JSON round trip"""
+    return json.loads(json.dumps({
+        'modules': {'m': {'accessibles': {'_par': {'datainfo': dt.export_datatype(), 'description': 'p', 'readonly': False}},
+                          'description': 'm', 'interface_classes': ['Writable'], 'features': []}},
+        'equipment_id': 'c02', 'firmware': 'x', 'description': 'x'}))
 
-    def __init__(self, cdt):
+
+class Recorder:
+    """a SecopClient whose connection is a recorder: request() encodes the frame with the real encode_msg_frame.
+    Given the node's datatype, the client's tables (modules, identifier, internal names, the rebuilt datatype) are built by
+    the real `_init_descriptive_data` from the description"""
+
+    def __init__(self, cdt=None, dt=None):
         from frappy.client import SecopClient, NullLogger
         from frappy.protocol.interface import encode_msg_frame
 
@@ -125,9 +150,16 @@ class Recorder:
                 return ('changed', ident, [data, {}])
 
         c = self.client = Client('recorder', NullLogger)
-        c.modules = {'m': {'accessibles': {}, 'parameters': {'p': {'datatype': cdt}}, 'commands': {}, 'properties': {}}}
-        c.identifier = {('m', 'p'): 'm:p'}
-        c.internal = {'m:p': ('m', 'p')}
+        if dt is not None:
+            c._init_descriptive_data(describe_node(dt))
+            self.cdt = c.modules['m']['parameters']['par']['datatype']
+            self.ident = c.identifier['m', 'par']
+        else:
+            c.modules = {'m': {'accessibles': {}, 'parameters': {'par': {'datatype': cdt}}, 'commands': {}, 'properties': {}}}
+            c.identifier = {('m', 'par'): 'm:_par'}
+            c.internal = {'m:_par': ('m', 'par')}
+            self.cdt = cdt
+            self.ident = 'm:_par'
 
 
 def _out(f, enc):
@@ -303,23 +335,25 @@ def run_impl(tree, fmts, v):
     """every call of one case; returns (impl outcomes, fmt table, library test failures)"""
     from frappy.protocol.interface import encode_msg_frame, decode_msg
     dt = build_dt(tree, fmts)
-    impl = dict.fromkeys(['exp', 'node', 'client', 'cdt', 'text', 'back', 'again', 'cval', 'ctext', 'cback', 'cagain', 'sent',
-                          'cnode'])
+    impl = dict.fromkeys(KEYS)
     libfail = []
     floats = list(float_leaves(tree, v))
     try:
-        cdt = rebuild(dt)
+        rec = Recorder(dt=dt)                     # the client's own tables, built from the description
+        cdt = rec.cdt
         ctree = dtcodec.dt_to_tree(cdt)
         impl['cdt'] = ctree
+        if dtcodec.dt_to_tree(rebuild(dt)) != ctree:
+            libfail.append('client tables: the datatype in SecopClient.modules differs from get_datatype(description)')
     except Exception as e:
-        cdt, ctree = None, None
+        rec, cdt, ctree = None, None, None
         impl['cdt'] = {'err': type(e).__name__}
     # ---- wire ----
     impl['exp'], exp = _out(lambda: dt.export_value(v), enc_json)
     data = None
     if 'ok' in impl['exp']:
         try:
-            frame = encode_msg_frame('update', 'm:p', [exp, {}])
+            frame = encode_msg_frame('update', 'm:_par', [exp, {}])
             text = frame.decode('utf-8').split(' ', 2)[2]
             try:
                 json.loads(text, parse_constant=_reject_constant)
@@ -342,10 +376,9 @@ def run_impl(tree, fmts, v):
             impl['again'], _ = _out(lambda: dt.to_string(back), enc_text(tree))
     # ---- the client: cache item from the update message, its text, the string write ----
     if cdt is not None and data is not None:
-        rec = Recorder(cdt)
         try:
-            rec.client.updateValue('m', 'p', data, 1.0, None)
-            item = rec.client.cache['m', 'p']
+            rec.client.updateValue(*rec.client.internal[rec.ident], data, 1.0, None)
+            item = rec.client.cache['m', 'par']
             impl['cval'] = {'ok': dtcodec.py_to_json(item.value)}
         except Exception as e:
             item = None
@@ -360,14 +393,30 @@ def run_impl(tree, fmts, v):
                     impl['cagain'], _ = _out(lambda: cdt.to_string(cback), enc_text(ctree))
 
                 def send():
-                    rec.client.setParameterFromString('m', 'p', ctext)
+                    n = len(rec.sent)
+                    rec.client.setParameterFromString('m', 'par', ctext)
+                    if len(rec.sent) != n + 1:
+                        raise RuntimeError('no frame')
                     action, ident, sent = decode_msg(rec.sent[-1])
-                    if (action, ident) != ('change', 'm:p'):
+                    if (action, ident) != ('change', 'm:_par'):
                         raise RuntimeError('unexpected frame')
                     return sent
                 impl['sent'], sent = _out(send, enc_json)
                 if 'ok' in impl['sent']:
                     impl['cnode'], _ = _out(lambda: dt.import_value(sent), dtcodec.py_to_json)
+
+            def send_value():
+                n = len(rec.sent)
+                rec.client.setParameter('m', 'par', item.value)
+                if len(rec.sent) != n + 1:
+                    raise RuntimeError('no frame')
+                action, ident, sent = decode_msg(rec.sent[-1])
+                if (action, ident) != ('change', 'm:_par'):
+                    raise RuntimeError('unexpected frame')
+                return sent
+            impl['vsent'], vsent = _out(send_value, enc_json)
+            if 'ok' in impl['vsent']:
+                impl['vnode'], _ = _out(lambda: dt.import_value(vsent), dtcodec.py_to_json)
     # ---- the library leaves: the fmt read-back table, and the laws tested on the leaves drawn ----
     table, seen = [], set()
     leafdts = {}
@@ -382,12 +431,23 @@ def run_impl(tree, fmts, v):
             r = readback(s)
             table.append([key[0], key[1], f2bits(r)])
             if f2bits(x + 0.0) == f2bits(x):            # the law is stated for canonical floats
-                y = ldt(ast.literal_eval(s))
-                if ldt.fmtstr % y != s:
-                    # the law is a precondition of the text clauses which the Lean side decides from the table (`fmtlaw`);
-                    # here it is only cross-checked: known to fail for negative values printing as '-0.0' under %.nf and for
-                    # scaled leaves whose grid is finer than the double spacing
-                    libfail.append('fmt law: %r %% %r = %r reads back as %r which prints %r' % (ldt.fmtstr, x, s, y, ldt.fmtstr % y))
+                # TextLib.Lawful.fmtDouble / fmtScaled as stated in Spec/C02.lean: library and float arithmetic only.
+                # It is a precondition of the text clauses which the Lean side decides from the table (`fmtlaw`); here it is
+                # cross-checked with the real '%' and literal_eval: known to fail for negative values printing as '-0.0'
+                # under %.nf and for scaled leaves whose grid is finer than the double spacing
+                w = ast.literal_eval(s)
+                if isinstance(w, bool) or not isinstance(w, (int, float)) or w != w:
+                    libfail.append('fmt law: %r %% %r = %r is not a number literal' % (ldt.fmtstr, x, s))
+                else:
+                    r = w + 0.0
+                    if leaf['t'] == 'double':
+                        y = sorted([-gen.FMAX, r, gen.FMAX])[1]
+                        ok = ldt.fmtstr % y == s
+                    else:
+                        y = float(int(round(r / ldt.scale)) * ldt.scale)
+                        ok = math.isfinite(y) and ldt.fmtstr % y == s and float(int(round(y / ldt.scale)) * ldt.scale) == y
+                    if not ok:
+                        libfail.append('fmt law: %r %% %r = %r reads back as %r -> %r which prints %r' % (ldt.fmtstr, x, s, r, y, ldt.fmtstr % y))
                 if x + 0.0 != x or not (x <= x) or x * 3.0 != 3.0 * x:
                     libfail.append('float law on %r' % x)
         except Exception as e:
@@ -416,10 +476,11 @@ def canon_out(o):
     return o
 
 
-KEYS = ['exp', 'node', 'client', 'cdt', 'text', 'back', 'again', 'cval', 'ctext', 'cback', 'cagain', 'sent', 'cnode']
+KEYS = ['exp', 'node', 'client', 'cdt', 'text', 'back', 'again', 'cval', 'ctext', 'cback', 'cagain', 'sent', 'cnode', 'vsent',
+        'vnode']
 
 
-CLIENT_KEYS = ['client', 'cdt', 'cval', 'ctext', 'cback', 'cagain', 'sent', 'cnode']
+CLIENT_KEYS = ['client', 'cdt', 'cval', 'ctext', 'cback', 'cagain', 'sent', 'cnode', 'vsent', 'vnode']
 
 
 def obs(d):
@@ -429,8 +490,43 @@ def obs(d):
 # ---------------------------------------------------------------------------------------------
 # generators: the valid stream
 # ---------------------------------------------------------------------------------------------
+def gen_fmt(rng):
+    """a format string of the SECoP family %.<n>(e|f|g): the catalogue (frappy's default %g three times), or any precision
+    0..17 with any of the three conversions (few digits round a limit value up beyond the float range, many digits show
+    the binary noise, %.<n>f prints small negative values as -0.00)"""
+    r = rng.random()
+    if r < 0.4:
+        return rng.choice(FMTS)
+    return '%%.%d%s' % (rng.choice([0, 1, 2, 3, 4, 5, 6, 7, 8, 9, 10, 11, 12, 15, 16, 17]), rng.choice('efg'))
+
+
+def blank_names(rng, tree):
+    """the same tree with, now and then, an enum member name that starts or ends with white space (the text form of an enum
+    value is the bare name: `from_string` must not lose the blanks), sometimes next to the member with the stripped name"""
+    t = tree['t']
+    if t == 'enum':
+        members = [list(m) for m in tree['members']]
+        if rng.random() < 0.3:
+            names = {n for n, _ in members}
+            i = rng.randrange(len(members))
+            new = rng.choice([' %s', '%s ', '\t%s', '  %s  ', '%s\n', '\xa0%s'])  % members[i][0]
+            if new not in names:
+                if rng.random() < 0.3 and len(members) < 8:
+                    members.append([new, max(v for _, v in members) + 1])
+                else:
+                    members[i][0] = new
+        return dict(tree, members=members)
+    if t == 'array':
+        return dict(tree, elem=blank_names(rng, tree['elem']))
+    if t == 'tuple':
+        return dict(tree, elems=[blank_names(rng, e) for e in tree['elems']])
+    if t == 'struct':
+        return dict(tree, members=[[k, blank_names(rng, m)] for k, m in tree['members']])
+    return tree
+
+
 def gen_fmts(rng, tree):
-    return {pos_key(pos): rng.choice(FMTS) for pos, leaf in leaf_paths(tree) if leaf['t'] in ('double', 'scaled')}
+    return {pos_key(pos): gen_fmt(rng) for pos, leaf in leaf_paths(tree) if leaf['t'] in ('double', 'scaled')}
 
 
 def shuffled_structs(rng, tree, v):
@@ -455,7 +551,12 @@ def extra_valid(rng, tree):
     if t == 'double':
         lo, hi = gen._f(tree['min']), gen._f(tree['max'])
         out += [x for x in (1e300, -1e300, 1e-300, 123456789.0, 0.1, 1 / 3, 2.0 ** 53 + 2, 5e-324, 1e16, 1e22, 1e23, 0.30000000000000004,
-                            -0.0, 1e-5, 99999.95, 999999.5, gen.FMAX, -gen.FMAX) if lo <= x <= hi]
+                            -0.0, 1e-5, 99999.95, 999999.5, gen.FMAX, -gen.FMAX,
+                            # small negative values: '%.1f' % -0.04 is '-0.0', which reads back as 0.0 and prints '0.0' (the
+                            # instances where the assumed format law fails; counted, see `precondition.fmt-law-fails`)
+                            -0.04, -0.4, -1e-5, -4e-13,
+                            # a format with few digits rounds these up to the next power of ten / beyond the float range
+                            9.5, 99.5, 0.95, 9.9999e15, 1.7976931348623157e308, 1.75e308) if lo <= x <= hi]
     elif t == 'scaled':
         kb = gen.grid_bounds(tree)
         if kb and kb[0] <= kb[1]:
@@ -520,6 +621,21 @@ def _value_leaves(tree, value, path=()):
         yield path, tree
 
 
+def _enum_names(tree):
+    t = tree['t']
+    if t == 'enum':
+        for n, _ in tree['members']:
+            yield n
+    elif t == 'array':
+        yield from _enum_names(tree['elem'])
+    elif t == 'tuple':
+        for e in tree['elems']:
+            yield from _enum_names(e)
+    elif t == 'struct':
+        for _, m in tree['members']:
+            yield from _enum_names(m)
+
+
 def catalogue_trees():
     """small trees every run contains (the shapes the design phase flagged)"""
     fj = gen.fj
@@ -527,6 +643,7 @@ def catalogue_trees():
     sc = {'t': 'scaled', 'scale': fj(0.1), 'min': fj(0.0), 'max': fj(10.0), 'ar': fj(0.1), 'rr': fj(1.2e-7)}
     scbig = {'t': 'scaled', 'scale': fj(0.1), 'min': fj(0.0), 'max': fj(0.1 * 2 ** 53), 'ar': fj(0.1), 'rr': fj(1.2e-7)}
     en = {'t': 'enum', 'members': [['off', 0], ['on', 1], ['x y', 5]]}
+    enb = {'t': 'enum', 'members': [['off ', 0], [' on', 1], ['on', 2], ['\tx', 5]]}
     bl = {'t': 'blob', 'min': 0, 'max': 300}
     db = {'t': 'double', 'min': fj(-gen.FMAX), 'max': fj(gen.FMAX), 'ar': fj(0.0), 'rr': fj(1.2e-7)}
     st = {'t': 'string', 'min': 0, 'max': gen.UNLIMITED, 'utf8': True}
@@ -534,7 +651,8 @@ def catalogue_trees():
         {'t': 'tuple', 'elems': [i5]},
         {'t': 'tuple', 'elems': [{'t': 'tuple', 'elems': [st]}]},
         {'t': 'array', 'elem': {'t': 'tuple', 'elems': [en]}, 'min': 0, 'max': 3},
-        sc, scbig, en, bl, db, st,
+        sc, scbig, en, enb, bl, db, st,
+        {'t': 'tuple', 'elems': [enb, i5]},
         {'t': 'struct', 'members': [['a', i5], ['b', sc]], 'optional': ['b'], 'client': False},
         {'t': 'struct', 'members': [['a', en], ['b', bl]], 'optional': ['a', 'b'], 'client': False},
         {'t': 'array', 'elem': en, 'min': 0, 'max': 4},
@@ -619,6 +737,8 @@ def shrink(ctx, case, clause):
 
 
 def signature(clause, case):
+    if clause.endswith(':neg-zero-text'):
+        return 'C02:' + clause                  # the recorded finding: one signature per clause, whatever the tree
     return 'C02:' + clause + ':' + case['tree']['t']
 
 
@@ -670,20 +790,24 @@ def run(ctx):
         d = rng.choice([1, 2, 2, 3, 3, 3] + ([4, 5] if big else []))
         trees.append((gen.gen_tree(rng, min(d, maxdepth)), 'gen'))
     for tree0, origin in trees:
+        if origin == 'gen':
+            tree0 = blank_names(rng, tree0)
         try:
             tree = dtcodec.dt_to_tree(dtcodec.tree_to_dt(tree0))
         except Exception as e:
             res.count('tree.refused:' + type(e).__name__)
             continue
-        if tree.get('t') == 'struct' or origin == 'catalogue':
-            pass
+        if any(n != n.strip() for n in _enum_names(tree)):
+            res.count('tree.enum-name-with-outer-blanks')
         res.count('tree.root=' + tree['t'])
         res.count('tree.depth=%d' % dtcodec.tree_depth(tree))
         for k in set(dtcodec.tree_kinds(tree)):
             res.count('tree.contains=' + k)
         fmts = gen_fmts(rng, tree)
         for f in fmts.values():
-            res.count('fmtstr=' + f)
+            res.count('fmtstr=' + (f if f == '%g' else '%.<n>' + f[-1]))
+            res.count('fmtstr.digits=' + ('default' if f == '%g' else '0-2' if int(f[2:-1]) <= 2 else '3-9' if int(f[2:-1]) <= 9
+                                          else '10-17'))
         for v in gen_values(rng, tree, per_tree):
             if not dtcodec.encodable(v):
                 continue
@@ -719,12 +843,23 @@ def run(ctx):
             res.count('valid.root=' + t)
             res.count('canon=%s' % ans['canon'])
             res.count('node-text-judged=%s' % (ans['canon'] and ans['complete'] and ans['fmtlaw']))
-            if not ans['fmtlaw']:
-                # a scaled leaf whose text reads back to a neighbouring grid point (grid finer than the double spacing)
+            res.count('scaled-limits-on-grid=%s' % ans.get('limits'))
+            if ans.get('limits') and ans.get('cvalid') is False and ans['canon']:
+                res.disagreements.append({'case': c, 'model': 'Lemmas.C02.valid_clientOf: the cached value is valid for the rebuilt type',
+                                          'impl': 'validB cdt cval = false'})
+            if ans.get('cvalid') is not None:
+                # hypothesis of client_cache_string_write: the cached value lies in the value set of the rebuilt type
+                res.count('client-value-valid-for-rebuilt-type=%s' % ans['cvalid'])
+            if ans['canon'] and ans.get('negzero'):
+                # a float leaf prints as a text that reads back as -0.0: the recorded finding (judged, KNOWN-FINDING)
+                res.count('finding.neg-zero-text(judged)')
+            elif ans['canon'] and not ans['fmtlaw']:
+                # the assumed format law fails at a leaf of this value: a negative value printing as '-0.0' (reads back as
+                # 0.0, prints '0.0'), or a scaled leaf whose text reads back to a neighbouring grid point
                 res.count('precondition.fmt-law-fails(text not judged)')
             if isinstance(impl.get('cdt'), dict) and 'err' in impl['cdt']:
                 res.count('client-datatype-not-rebuilt(client clauses not judged; C03)')
-            for k in ('exp', 'node', 'client', 'back', 'cback', 'sent', 'cnode'):
+            for k in ('exp', 'node', 'client', 'back', 'cback', 'sent', 'cnode', 'vsent', 'vnode'):
                 o = impl.get(k)
                 res.count(f'{k}=' + ('none' if o is None else 'ok' if 'ok' in o else 'err:' + o['err']))
             if t != 'bool':
@@ -732,7 +867,7 @@ def run(ctx):
             if len(res.samples) < 6 and t in ('array', 'tuple', 'struct') and origin == 'gen' and len(json.dumps(c)) < 600:
                 res.samples.append({'case': c, 'impl': {k: impl[k] for k in ('exp', 'text', 'ctext', 'sent')}})
             for lf in libfail:
-                if lf.startswith('fmt law: ') and not ans['fmtlaw']:
+                if lf.startswith('fmt law: ') and not ans['fmtlaw']:    # incl. the neg-zero-text instances
                     res.count('libtest.fmt-law-fails(agrees with the Lean precondition)')
                     continue
                 libfails += 1
@@ -751,7 +886,7 @@ def run(ctx):
                 res.disagreements.append({'case': c, 'model': {k: mo[k] for k in diff}, 'impl': {k: io[k] for k in diff}})
             for clause in ans['judge']:
                 small = c
-                if (clause, t) in seen_unshrunk and shrunk >= 12:
+                if (clause, t) in seen_unshrunk and (shrunk >= 12 or clause.endswith(':neg-zero-text')):
                     continue                       # the same clause on the same root kind was reported (and shrunk) already
                 seen_unshrunk.add((clause, t))
                 if shrunk < 60:
